@@ -10,6 +10,16 @@ E3 = "E3 cooperative scheduler + preemption-bounded DFS (harness/vsched, harness
 
 # id -> (level, engine, technique, text, note, design_ref)
 CHECKS = {
+    "C07": ("fault_enumeration", E1,
+            "enumeration of (base state x transaction body x failure kind x failure position x route) on the real Db.Update/Batch path with storage-write fault points in bbolt and joined goroutines",
+            "From every base state of a short kitchen-sink exploration, every single operation and all pairs (thorough: sampled triples) over a core alphabet are run with every failure kind at every position: caller error before each operation and after the last, operation rejected by the reference model (duplicate, missing target, restrict, unusable key), constraint veto for each of 6 stores x 3 change types, failing pre-commit action, and storage write k of N failing for EVERY k (fault points inserted into bbolt's write methods by the overlay); through Db.Update, nested Db.Update and Db.Batch. The failing store call and the transaction must return an error, the database must be byte-identical, and no listener, post-commit hook, commit action or tx-complete listener may run (all library goroutines are joined, no sleeps).",
+            "Storage faults are injected at bbolt's Put/Delete/CreateBucket(IfNotExists)/DeleteBucket entry (pages/fsync are not modelled); Batch is sampled (10 ms per call); single caller.",
+            "DESIGN.md §4 C07"),
+    "C08": ("model_checking", E1,
+            "base states from explicit-state BFS x transaction programs routed through parent / plain child / extended child store; multiset of delivered events vs reference event list; goroutines joined through the tracked-spawn overlay",
+            "Ten registration styles (typed, function, untyped, id-only, typed and untyped constraint; sync and async) x three change types on five stores record (store, style, type, id, observed state). For every base state and every 1-2 (thorough: 3) operation transaction - committed, rolled back by a caller error, rejected, via Update and Batch - the recorded multiset must equal the reference list derived from the model (one event per committed change with final/last state, one parent event per child change, none for undone work); commit actions and tx-complete listeners exactly once per committed transaction.",
+            "Events on the extended child store for entities without extended data are not specified and ignored; two concurrent Batch callers are outside the property.",
+            "DESIGN.md §4 C08"),
     "C09": ("model_checking", E1,
             "explicit-state BFS for soundness on every reachable healthy state + exhaustive enumeration of corruption subsets on three base states against an independent reference differ/repairer",
             "On every reachable state of the kitchen-sink exploration (depth 3/4) check-only and fix runs must report nothing and change nothing. On three base states ALL subsets of size <= 2 (thorough: 3) of 20 raw-bucket corruption atoms (unique: missing/dangling/wrong-target/stale; set: missing/extra/dangling id, empty key, missing key, stray key; fk: missing/extra/dangling back-reference, dangling reference nullable and not, null in non-nullable; link: one-sided either side, dangling; genuine unique conflict) are applied in an earlier transaction and in the same transaction as the fix: check-only reports every item of the reference diff and leaves the image unchanged, the fix run reaches the reference-repaired image, the re-check reports only unfixable conflicts and changes nothing.",
